@@ -16,7 +16,7 @@ def fields(r):
 
 
 def run_scenarios(chk, scenarios, tag):
-    outs = run_impl("simnet", scenarios)
+    outs = run_impl("simnet", scenarios, shards=NCPU)
     parsed = []
     for sc, o in zip(scenarios, outs):
         chk.evaluations += 1
@@ -95,3 +95,138 @@ def c05(chk):
             chk.monitor_fail("the surviving connection is not the one dialed by the greater identity (origins %s/%s, expected %s/%s)" % (o0, o1, want0, want1), dict(case=sc, impl=o[:800]))
     if outs:
         chk.sample(dict(case=scen[0][:300], impl=outs[0][:500]))
+
+
+def c13(chk):
+    """Background dialing of a whole network over the fabric, tick by tick, against Dialer.v."""
+    quick = chk.tier == "quick"
+    P = 1000  # ms
+    scen, models, metas = [], [], []
+    n = 40 if quick else 400
+    for i in range(n):
+        rng = chk.rng
+        k = rng.randrange(1, 5)
+        ticks = rng.choice([8, 12, 20]) if quick else rng.choice([12, 20, 40])
+        step = rng.choice([500, 1000, 1500, 2500])
+        maxb = rng.choice([1000, 3000, 6000])
+        cap_binds = rng.random() < 0.15
+        maxout = rng.choice([1, 2]) if cap_binds else 100
+        cmds = ["seed=%d delay=%d" % (rng.randrange(1 << 30), rng.choice([200, 1000, 5000])),
+                "node 0 ctick=%d ctimeout=400 backoff=%d maxbackoff=%d maxout=%d idle=600000" % (P, step, maxb, maxout)]
+        known_m = []
+        up0 = {}
+        for j in range(1, k + 1):
+            up0[j] = rng.random() < 0.75
+            cmds.append("node %d key=%d" % (j, 100 + j))
+        for j in range(1, k + 1):
+            if not up0[j]:
+                cmds.append("drop %d" % j)
+        for j in range(1, k + 1):
+            aff = rng.choice(["high", "high", "high", "allowed", "never"])
+            addrs = []
+            for _ in range(rng.choice([0, 1, 1, 2, 3])):
+                r = rng.random()
+                if r < 0.55:
+                    addrs.append(("%d" % j, j))
+                elif r < 0.85:
+                    b = 100 + rng.randrange(5)
+                    addrs.append(("p%d" % (b - 91), b))
+                else:
+                    o = rng.randrange(1, k + 1)
+                    addrs.append(("%d" % o, o if o == j else 200 + o))  # another peer's address: identity mismatch
+            cmds.append("known 0 %d %s addr=%s" % (j, aff, ",".join(a for a, _ in addrs) or "none"))
+            known_m.append("%d:%s:%s" % (j, aff, ",".join(str(m) for _, m in addrs)))
+        if rng.random() < 0.3:
+            cmds.append("known 0 0 high addr=self")
+            known_m.append("0:high:0")
+        cmds += ["sleep 10", "trace dial", "peers 0"]
+        avail = ["0:%d:down" % j for j in range(1, k + 1) if not up0[j]]
+        up = dict(up0)
+        for t in range(1, ticks):
+            cmds.append("sleep 490")
+            for j in range(1, k + 1):
+                if rng.random() < 0.12:
+                    at = (t - 1) * P + 500
+                    if up[j]:
+                        cmds.append("drop %d" % j)
+                        avail.append("%d:%d:down" % (at, j))
+                    else:
+                        cmds.append("node %d key=%d fport=%d" % (j, 100 + j, j))
+                        avail.append("%d:%d:up" % (at, j))
+                    up[j] = not up[j]
+            cmds += ["sleep 510", "trace dial", "peers 0"]
+        scen.append("simnet " + " ; ".join(cmds))
+        models.append("dialer own=0 step=%d maxb=%d maxout=%d P=%d ticks=%d | %s | %s"
+                      % (step, maxb, maxout, P, ticks, ";".join(known_m), " ".join(avail)))
+        metas.append(dict(k=k, ticks=ticks, cap=cap_binds, maxout=maxout, known=known_m))
+    outs, parsed = run_scenarios(chk, scen, "fabric:dialer")
+    mouts = run_model(models)
+    for sc, mc, o, res, mo, meta in zip(scen, models, outs, parsed, mouts, metas):
+        if res is None:
+            continue
+        cmds = [c.strip() for c in sc[len("simnet "):].split(" ; ")][1:]
+        ports = {}
+        per_tick = []
+        peers_tick = []
+        for c, x in zip(cmds, res):
+            if c.startswith("node ") and x.startswith("ok"):
+                ports[x.split()[2]] = int(c.split()[1])
+            if c == "trace dial":
+                ds = []
+                for line in x.strip("[]").split("|"):
+                    m = re.search(r"peer=Some\(PeerId\(n(\d+)\)\),address=SocketAddr\(127\.0\.0\.1:(\d+)\)", line)
+                    if m:
+                        port = m.group(2)
+                        ds.append((int(m.group(1)), port))
+                per_tick.append(ds)
+            if c == "peers 0":
+                peers_tick.append(x)
+        aff = {int(e.split(":")[0]): e.split(":")[1] for e in meta["known"]}
+        naddr = {int(e.split(":")[0]): len([a for a in e.split(":")[2].split(",") if a]) for e in meta["known"]}
+        mt = mo.split()
+        ok_case = True
+        for i, ds in enumerate(per_tick):
+            # model-independent monitors
+            for p, port in ds:
+                if p == 0 or aff.get(p) != "high" or naddr.get(p, 0) == 0:
+                    chk.monitor_fail("background dial to an ineligible peer (self / not High / no address): peer %d at tick %d" % (p, i), dict(case=sc[:1500], impl=str(per_tick)[:600]))
+                    ok_case = False
+            if len(ds) > meta["maxout"]:
+                chk.monitor_fail("more background dials started (%d) than max outstanding (%d) at tick %d" % (len(ds), meta["maxout"], i), dict(case=sc[:1500]))
+                ok_case = False
+            if len(set(p for p, _ in ds)) != len(ds):
+                chk.monitor_fail("a peer was dialed twice in one check", dict(case=sc[:1500], impl=str(ds)))
+                ok_case = False
+            if i > 0:
+                listed = peers_tick[i - 1].strip("[]").split(",")
+                for p, _ in ds:
+                    if str(p) in listed and str(p) in peers_tick[i].strip("[]").split(","):
+                        pass  # may have been lost and re-established within the tick; not decidable here
+        if not ok_case:
+            continue
+        chk.nontriv(sc)
+        # model comparison: per tick, the set of (peer, address)
+        def norm_port(p, port):
+            port = int(port)
+            if port < 100:
+                return 91 + port          # p9.. -> 100..
+            j = ports.get(str(port))
+            if j is None:
+                return -1
+            return j if j == p else 200 + j
+        for i, ds in enumerate(per_tick):
+            if i >= len(mt):
+                break
+            f = mt[i].split(":")
+            mds = set(x for x in f[1].split(",") if x)
+            ids = set("%d@%d" % (p, norm_port(p, port)) for p, port in ds)
+            if meta["cap"]:
+                elig = set(x for x in f[2][1:].split(",") if x)
+                if not set(str(p) for p, _ in ds) <= elig or len(ds) != min(len(elig), meta["maxout"]):
+                    chk.disagree(mc[:800], "tick %d dials %s" % (i, sorted(ids)), "eligible %s cap %d" % (sorted(elig), meta["maxout"]), "simnet/dialer-cap")
+                break   # which peers were taken is unspecified (hash order): later ticks diverge
+            if ids != mds:
+                chk.disagree(mc[:800], "tick %d: %s (all: %s)" % (i, sorted(ids), per_tick), "tick %d: %s (all: %s)" % (i, sorted(mds), mo), "simnet/dialer")
+                break
+    if outs:
+        chk.sample(dict(case=scen[0][:400], impl=outs[0][:400], model=mouts[0][:300]))
